@@ -1566,12 +1566,6 @@ CLAUSES = [
     Clause("gs_corr", "corr", gen_gs, run_gs, judge_gs, lean=lean_gs, site="utils.indefinite_orthogonalize",
            budget={"quick": 160, "thorough": 4000},
            what="indefinite_orthogonalize(QᵀDQ, rational rows) by value vs the Lean Gram–Schmidt over ℚ (unnormalised rows and square-norms exact, normalised in float); signatures p+q ≤ 6, batch shapes, 1-d input"),
-    Clause("ortho_corr", "corr", gen_ortho, run_ortho, judge_ortho, lean=lean_ortho, site="utils.indefinite_orthogonalize (with normalize)",
-           budget={"quick": 60, "thorough": 1500},
-           what="indefinite_orthogonalize incl. the final normalize vs Lean GS.indefiniteOrthogonalize with exact roots (c18.ortho), rows up to sign; inputs whose Gram–Schmidt square-norms are ± rational squares"),
-    Clause("orient_corr", "corr", gen_orient, run_orient, judge_orient, lean=lean_orient, site="utils.make_orientation_preserving",
-           budget={"quick": 60, "thorough": 1500},
-           what="make_orientation_preserving vs Lean GS.makeOriented (exact determinant, rowsMatrix / negLastRow) by value on invertible rational matrices, sizes 1-5, batch shapes"),
     Clause("find_isometry_corr", "corr", gen_fi, run_fi, judge_fi, lean=lean_fi, site="utils.find_isometry",
            budget={"quick": 110, "thorough": 3000},
            what="find_isometry with the kernel basis captured from the implementation: Lean runs gs(partial) ++ gs(ker) exactly on it (by value), evaluates the kernel contract and M F Mᵀ − diag(±1) exactly; force_oriented"),
@@ -1623,4 +1617,11 @@ CLAUSES = [
     Clause("arcs_oracle", "oracle", gen_arcs, run_arcs, judge_arco, site="utils.short_arc / right_to_left / arc_include",
            budget={"quick": 600, "thorough": 10000},
            what="output is the input pair modulo 2π and the counter-clockwise arc is short / right-to-left / contains the reference"),
+    # appended last so that the clauses above draw the same inputs from the one PRNG as before
+    Clause("ortho_corr", "corr", gen_ortho, run_ortho, judge_ortho, lean=lean_ortho, site="utils.indefinite_orthogonalize (with normalize)",
+           budget={"quick": 60, "thorough": 1500},
+           what="indefinite_orthogonalize incl. the final normalize vs Lean GS.indefiniteOrthogonalize with exact roots (c18.ortho), rows up to sign; inputs whose Gram–Schmidt square-norms are ± rational squares"),
+    Clause("orient_corr", "corr", gen_orient, run_orient, judge_orient, lean=lean_orient, site="utils.make_orientation_preserving",
+           budget={"quick": 60, "thorough": 1500},
+           what="make_orientation_preserving vs Lean GS.makeOriented (exact determinant, rowsMatrix / negLastRow) by value on invertible rational matrices, sizes 1-5, batch shapes"),
 ]
